@@ -162,6 +162,8 @@ package interp
 //@   requires [assume] f != nil && n != nil && def != nil && def.typ != nil
 //@   ensures [local:fr] one-frame-per-call: fresh(fr)
 //@   ensures [local:fr] results-are-the-leading-slots-of-the-callee-frame: len(out) == numRet && forall(k, 0, numRet, out[k] == fr.data[k])
+//@   loop 1 index k
+//@   step [C08] every-slot-of-the-frame-is-allocated-by-this-call: fresh(d[k])
 //@   loop 3
 //@   step [next] argument-i-is-copied-into-parameter-slot-i: !isInterfaceSrc(def.typ.arg[i]) || isEmptyInterface(def.typ.arg[i]) ==> rvIface(d[i]) == rvIface(arg) && rvInt(d[i]) == rvInt(arg) && rvString(d[i]) == rvString(arg)
 
@@ -210,6 +212,8 @@ package interp
 //@   opt opaque-havoc = none
 //@   requires [assume] f != nil && n != nil
 //@   ensures [local:nf] one-frame-per-call: fresh(nf)
+//@   loop 5 index k
+//@   step every-local-slot-is-allocated-by-this-call: fresh(nf.data[numRet+k])
 //@ lit getFunc calls:runCfg (in) (out)
 //@   props C08
 //@   opt safety = off
@@ -219,6 +223,8 @@ package interp
 //@   opt opaque-havoc = none
 //@   requires [assume] f != nil && n != nil && fr != nil
 //@   ensures [local:fr2] one-frame-per-call: fresh(fr2)
+//@   loop 1 index k
+//@   step every-slot-of-the-frame-is-allocated-by-this-call: fresh(d[k])
 
 // getMapType (callBin): for host functions with an entry in interp.mapTypes the interface an interpreted
 // argument is wrapped as is the FIRST interface of the function's list that the argument's type implements
